@@ -7,9 +7,31 @@ pub mod sync {
         pub struct Sender<T> { pub ghost chan: int, pub _p: core::marker::PhantomData<T> }
         pub struct Receiver<T> { pub ghost chan: int, pub _p: core::marker::PhantomData<T> }
         #[verifier::external_body]
-        pub fn channel<T>(buffer: usize) -> (r: (Sender<T>, Receiver<T>)) ensures !r.1.all_senders_dropped(), { unimplemented!() }
+        pub fn channel<T>(buffer: usize) -> (r: (Sender<T>, Receiver<T>)) ensures !r.1.all_senders_dropped(), r.0.chan == r.1.chan, { unimplemented!() }
         // what is known about every value taken out of a queue (the invariant the senders maintain; see client::message::axiom_queue_inv)
         pub uninterp spec fn queue_inv<T>(v: T) -> bool;
+        pub struct SendError<T> { pub v: T }
+        pub struct TrySendError<T> { pub v: T }
+        impl<T> Clone for Sender<T> {
+            #[verifier::external_body]
+            fn clone(&self) -> (r: Self) ensures r.chan == self.chan { unimplemented!() }
+        }
+        impl<T> Sender<T> {
+            // `v` has been put into the channel's queue at some point
+            pub uninterp spec fn delivered(&self, v: T) -> bool;
+            // the receiving half has been closed or dropped
+            pub uninterp spec fn receiver_gone(&self) -> bool;
+            // waits for capacity: fails only when the receiver is gone
+            #[verifier::external_body]
+            pub async fn send(&self, v: T) -> (r: Result<(), SendError<T>>)
+                ensures r is Ok ==> self.delivered(v), r is Err ==> self.receiver_gone(),
+            { unimplemented!() }
+            // never waits: also fails when the queue is full
+            #[verifier::external_body]
+            pub fn try_send(&self, v: T) -> (r: Result<(), TrySendError<T>>)
+                ensures r is Ok ==> self.delivered(v),
+            { unimplemented!() }
+        }
         impl<T> Receiver<T> {
             // true once every Sender of this channel has been dropped (it stays false while the owner of the receiver keeps a sender)
             pub uninterp spec fn all_senders_dropped(&self) -> bool;
@@ -23,10 +45,14 @@ pub mod sync {
         }
     }
 }
-//@trusted tokio::sync::mpsc::{Sender,Receiver}: opaque handles identified by a ghost channel id; delivery / drop propagation not modelled
+//@trusted tokio::sync::mpsc::{Sender,Receiver}: opaque handles identified by a ghost channel id; send().await fails only when the receiver is gone, try_send may also fail on a full queue; drop propagation not modelled
+#[verifier::external_body]
+pub fn spawn<F: core::future::Future>(f: F) { unimplemented!() }
+//@trusted tokio::spawn: the future is run to completion on another task (scheduling not modelled; the JoinHandle is not used by the verified callers)
 pub mod time {
     use vstd::prelude::*;
     // wall-clock time is not modelled: an Instant is an opaque point in time, timers fire no earlier than their deadline (assumed)
+    #[derive(Clone, Copy)]
     pub struct Instant { pub ghost t: int }
     impl Instant {
         #[verifier::external_body]
@@ -44,6 +70,32 @@ pub mod time {
     }
     #[verifier::external_body]
     pub async fn sleep_until(deadline: Instant) { unimplemented!() }
+
+    // R21: a function-local ghost clock (virtual time in nanoseconds). Time passes only at `.await`s; a timer is armed when its
+    // future is created (tokio::time::sleep computes its deadline at creation, sleep_until takes it as given).
+    pub struct Clock { pub ghost t: int }
+    pub struct Timer { pub ghost at: int }
+    impl Clock {
+        #[verifier::external_body]
+        pub fn start() -> (r: Clock) { unimplemented!() }
+        #[verifier::external_body]
+        pub fn now(&self) -> (r: Instant) ensures r.t == self.t { unimplemented!() }
+        // an await on anything but a timer: an arbitrary, non-negative amount of time passes
+        #[verifier::external_body]
+        pub fn elapse(&mut self) ensures final(self).t >= old(self).t { unimplemented!() }
+        #[verifier::external_body]
+        pub fn timer_until(&self, deadline: Instant) -> (r: Timer) ensures r.at == deadline.t { unimplemented!() }
+        #[verifier::external_body]
+        pub fn timer_after(&self, d: std::time::Duration) -> (r: Timer) ensures r.at == self.t + crate::nanos(d) { unimplemented!() }
+        // the timer arm of a select! wins: the clock reads the deadline (or is unchanged when the deadline has already passed)
+        #[verifier::external_body]
+        pub fn fire(&mut self, timer: &Timer) ensures final(self).t == (if old(self).t >= timer.at { old(self).t } else { timer.at }) { unimplemented!() }
+        // another arm of the select! wins the race against `timer`: it completed no later than the timer would have fired
+        #[verifier::external_body]
+        pub fn won_against(&mut self, timer: &Timer)
+            ensures final(self).t >= old(self).t, final(self).t <= (if old(self).t >= timer.at { old(self).t } else { timer.at }) { unimplemented!() }
+    }
 }
-//@trusted tokio::time::{Instant, sleep_until}: opaque; a timer fires no earlier than its deadline (not modelled)
+//@trusted tokio::time::{Instant, sleep_until}: opaque; a timer fires no earlier than its deadline (not modelled outside R21 functions)
+//@trusted tokio::time virtual clock (R21: Clock/Timer): time passes only at awaits; a select! timer arm fires exactly at its deadline; an arm that wins against a timer completed no later than that deadline (tokio::select! race semantics, assumed)
 //@include-if accept frag/tokio_net_accept.tpl
